@@ -273,7 +273,7 @@ func runC05(r *simkit.Run) {
 			}
 			var n int
 			outcome, n = ad.partial(c.Payload, keep)
-			if cfg.Signal != "metrics" {
+			{
 				nw := map[string]string{}
 				for k := range keep {
 					nw[k] = want[k]
